@@ -6,13 +6,6 @@ segments back, and the route tests `"/x" in path`, `"/x/" in path` become tests 
 namespace Ural.Facebook
 open Ural.Py Ural
 
-/-- the characters of a path-borne field for which the round trip is proved: anything but the
-url delimiters `/ ? #`, the params delimiter `;` and white space -/
-def segChar (c : Char) : Bool := c ≠ '/' && c ≠ '?' && c ≠ '#' && c ≠ ';' && !isSpace c
-
-/-- a path segment the round trip is proved for: not empty, made of `segChar`s, not `.`/`..` -/
-def segOk (s : Str) : Bool := !s.isEmpty && s.all segChar && !isDotSeg s
-
 theorem unsafe_isSpace : ∀ c, isUnsafeUrlChar c = true → isSpace c = true := by
   intro c h
   unfold isUnsafeUrlChar at h
